@@ -447,7 +447,7 @@ impl Property for C07 {
     }
     fn required_labels(&self) -> Vec<String> {
         let mut v: Vec<String> = registry().iter().map(|e| format!("type={}", e.full)).collect();
-        v.extend(["schema=proto", "schema=python", "unknown-field", "unpacked", "map", "deprecated-field", "oneof-unset", "oneof-set", "shuffled", "explicit-default", "enum-undeclared-number", "read-through-artifact-layer", "sweep=big-payloads", "payload>=16KiB", "big-payload-nested", "sweep=pre-1.6-sample-set", "sweep=typed-layer-blobs", "typed-layer-blob>=1MiB"].iter().map(|s| s.to_string()));
+        v.extend(["schema=proto", "schema=python", "unknown-field", "unpacked", "map", "deprecated-field", "oneof-unset", "oneof-set", "shuffled", "explicit-default", "enum-undeclared-number", "read-through-artifact-layer", "same-layer-stored-twice", "sweep=big-payloads", "payload>=16KiB", "big-payload-nested", "sweep=pre-1.6-sample-set", "sweep=typed-layer-blobs", "typed-layer-blob>=1MiB"].iter().map(|s| s.to_string()));
         v
     }
     fn cases(&self, tier: Tier) -> usize {
@@ -750,6 +750,9 @@ impl Property for C07 {
         if via_artifact {
             if let Some(r) = layer_via_artifact(e.full, &bytes) {
                 ctx.label("read-through-artifact-layer");
+                if bytes.len() % 3 == 0 && (e.full == "ommx.v1.Instance" || e.full == "ommx.v1.State") {
+                    ctx.label("same-layer-stored-twice");
+                }
                 if let Err(m) = r {
                     return fail(format!("C07/artifact-layer/{}", e.full), format!("{m}: {}", what()));
                 }
@@ -959,8 +962,15 @@ fn layer_via_artifact(full: &str, bytes: &[u8]) -> Option<Result<(), String>> {
         if bytes.len() % 2 == 0 {
             b.add_layer(ommx::ocipkg::oci_spec::image::MediaType::Other("application/json".to_string()), b"{}", std::collections::HashMap::new()).map_err(|e| format!("infra: {e:#}"))?;
         }
-        let desc = b.add_layer(mt, bytes, std::collections::HashMap::new()).map_err(|e| format!("infra: {e:#}"))?;
+        let desc = b.add_layer(mt.clone(), bytes, std::collections::HashMap::new()).map_err(|e| format!("infra: {e:#}"))?;
         let digest = Digest::new(desc.digest()).map_err(|e| format!("infra: {e:#}"))?;
+        // the same message stored a second time (two runs with the same result): every layer is read, also through the listing getters
+        let copies = if bytes.len() % 3 == 0 { 2 } else { 1 };
+        if copies == 2 {
+            let mut ann = std::collections::HashMap::new();
+            ann.insert("org.ommx.user.run".to_string(), "second".to_string());
+            b.add_layer(mt, bytes, ann).map_err(|e| format!("infra: {e:#}"))?;
+        }
         b.build().map_err(|e| format!("infra: {e:#}"))?;
         let mut a = Artifact::from_oci_archive(&path).map_err(|e| format!("infra: {e:#}"))?;
         macro_rules! cmp {
@@ -971,7 +981,7 @@ fn layer_via_artifact(full: &str, bytes: &[u8]) -> Option<Result<(), String>> {
                     return Err(format!("{} returns other content than a plain decode", stringify!($get)));
                 }
                 let all = a.$list().map_err(|e| format!("{} fails on a layer that a plain decode reads: {e:#}", stringify!($list)))?;
-                if all.len() != 1 || all[0].1 != want {
+                if all.len() != copies || all.iter().any(|e| e.1 != want) {
                     return Err(format!("{} returns other content than a plain decode", stringify!($list)));
                 }
             }};
